@@ -541,7 +541,7 @@ var _ = net.IPv4zero
 
 func init() {
 	addCheck(&Check{ID: "C09", Level: "model_checking", Race: true,
-		Rule:    "stateless depth-first search over schedules with deviation bounding (every non-default choice of the next goroutine or the firing select case costs one deviation) of the REAL proxy built with -race: two listens entries of one service (each UDP+TCP listener, each with its own UDP and TCP backend; one backend by host name), a UDP client on listener 1 and a TCP client on listener 2 (thorough: plus a UDP client on listener 2 announcing the same Via host), reactive backend doubles answering every request, and a membership change (remove + add) through the real resolver callback path, all injected without waiting, after a set-up that includes a CRLF keep-alive and a non-SIP datagram on the UDP listeners; scenarios two-clients (<=2 deviations, thorough <=3), three-clients (thorough <=2), tcp-backend-churn (host-name TCP backend connected, removed and replaced while three requests are dispatched; <=1, thorough <=2), shrink / shrink-first (a host name resolving to two of listener 1's three backends loses its second / its first address while three requests walk the rotation, followed by a stable period in which the vanished address must receive nothing; <=1, thorough <=2), named-hops (requests on both listeners carry Route headers naming next hops by host name, resolved through the simulated DNS, while the membership changes; <=1, thorough <=2), static-routes (requests on both listeners are routed by the shared static route table - wildcard and exact entries - at the same time; <=2), connections-lost (both TCP backend connections of listener 1 were closed by their peers; two requests that have to re-connect and a TCP client on listener 2 arrive at once; <=1, thorough <=2); every execution is checked by the oracle on the packet log AND by the Go race detector, whose hand-off-blind view is obtained by a norace spin scheduler; states = executions, transitions = choice points visited; non-trivial = execution with at least one deviation",
+		Rule:    "stateless depth-first search over schedules with deviation bounding (every non-default choice of the next goroutine or the firing select case costs one deviation) of the REAL proxy built with -race: two listens entries of one service (each UDP+TCP listener, each with its own UDP and TCP backend; one backend by host name), a UDP client on listener 1 and a TCP client on listener 2 (thorough: plus a UDP client on listener 2 announcing the same Via host), reactive backend doubles answering every request, and a membership change (remove + add) through the real resolver callback path, all injected without waiting, after a set-up that includes a CRLF keep-alive and a non-SIP datagram on the UDP listeners; scenarios two-clients (<=2 deviations, thorough <=3), three-clients (thorough <=2), tcp-backend-churn (host-name TCP backend connected, removed and replaced while three requests are dispatched; <=1, thorough <=2), shrink / shrink-first (a host name resolving to two of listener 1's three backends loses its second / its first address while three requests walk the rotation, followed by a stable period in which the vanished address must receive nothing; <=1, thorough <=2), named-hops (requests on both listeners carry Route headers naming next hops by host name, resolved through the simulated DNS, while the membership changes; <=1, thorough <=2), static-routes (requests on both listeners are routed by the shared static route table - wildcard and exact entries - at the same time; <=2), connections-lost (both TCP backend connections of listener 1 were closed by their peers; two requests that have to re-connect and a TCP client on listener 2 arrive at once; <=1, thorough <=2), clients-hang-up (a TCP client sends and closes at once, the TCP backend of the other entry sends a request over the connection the proxy dialled and hangs up, while requests are in flight; <=2, thorough <=3), and the concurrent flow pass (two canonical call flows at once through one proxy: second caller over the other transport / through a second listens entry / over a connection opened with its first message; <=1); every execution is checked by the oracle on the packet log AND by the Go race detector, whose hand-off-blind view is obtained by a norace spin scheduler; states = executions, transitions = choice points visited; non-trivial = execution with at least one deviation",
 		Assume:  []string{"scheduling points are synchronisation operations, select, socket reads; unsynchronised accesses are reported by the race detector on every explored execution", "socket operations carry exactly the happens-before edges the Go runtime gives them on unix (per-descriptor ordering; global ioSync word for stream read/write; none for datagrams)", "a request whose chosen backend is removed concurrently may be lost (the statement's 'registered at that moment')"},
 		Run:     func(c *Ctx) {},
 		RaceRun: c09RaceRun,
